@@ -1,7 +1,9 @@
 import SimuVerif.Model.Surface
 import Mathlib.Data.Multiset.AddSub
 import Mathlib.Data.Multiset.MapFold
-import Mathlib.Data.Multiset.Nodup
+import Mathlib.Data.Multiset.UnionInter
+import Mathlib.Data.Multiset.Count
+import Mathlib.Algebra.BigOperators.Group.List.Basic
 import Mathlib.Data.Finset.Image
 import Mathlib.Data.Finset.Card
 /-
